@@ -1,7 +1,7 @@
 (* C09 / C11 / C12 / C20 theorems about the Gin machine (Model/Gin.v, Model/GinEngine.v). *)
 From Coq Require Import List String ZArith Bool Arith Lia.
 From GinV Require Import Lib.Out Lib.PyStr Model.SelectorMap Model.Values Model.Gin Model.GinEngine.
-From GinV Require Import Proofs.MachineFrame.
+From GinV Require Import Proofs.SelectorMapLemmas Proofs.MachineFrame.
 Import ListNotations. Open Scope string_scope. Open Scope list_scope.
 
 (* ================================================================== *)
@@ -180,7 +180,7 @@ Qed.
 
 Definition cleared (s : state) : state := set_singletons [] (set_config [] (set_locked false s)).
 
-Lemma clear_config_unfold : forall s b, clear_config s b =
+Lemma clear_config_orig_unfold : forall s b, clear_config_orig s b =
   if b then (set_operative [] (set_constants req_constants (cleared s)), Ok tt)
   else
     let '(s1, r) := fold_left clr_step (sm_flat (constants s)) (set_constants sm_empty (cleared s), Ok tt) in
@@ -190,16 +190,33 @@ Lemma clear_config_unfold : forall s b, clear_config s b =
     end.
 Proof. reflexivity. Qed.
 
-Lemma clear_config_shape : forall s b s' r, clear_config s b = (s', r) ->
+Lemma clear_config_orig_shape : forall s b s' r, clear_config_orig s b = (s', r) ->
   exists x o, s' = set_operative o (set_constants x (cleared s)) /\
     (r = Ok tt -> o = [] /\ (b = true -> x = req_constants)) /\ (r = Ok tt \/ exists e, r = Raise e).
 Proof.
-  intros s b s' r H. rewrite clear_config_unfold in H. destruct b.
+  intros s b s' r H. rewrite clear_config_orig_unfold in H. destruct b.
   - inversion H; subst. exists req_constants, []. split; [reflexivity|]. split; auto.
   - destruct (fold_left clr_step _ _) as [s1 r1] eqn:E. apply clr_fold_shape in E. destruct E as [x ->].
     destruct r1 as [[]|e]; inversion H; subst.
     + exists x, []. split; [reflexivity|]. split; [|auto]. intros _. split; [reflexivity|discriminate].
     + exists x, (operative s). split; [reflexivity|]. split; [discriminate|eauto].
+Qed.
+
+(* the repaired clear_config: saved constants are re-inserted directly *)
+Definition rebuild (l : flat value) : smap value :=
+  fold_left (fun m kv => sm_set (fst kv) (snd kv) m) l sm_empty.
+
+Lemma clear_config_unfold : forall s b, clear_config s b =
+  (set_operative [] (set_constants (if b then req_constants else rebuild (sm_flat (constants s))) (cleared s)), Ok tt).
+Proof. intros s b. destruct b; reflexivity. Qed.
+
+Lemma clear_config_shape : forall s b s' r, clear_config s b = (s', r) ->
+  exists x o, s' = set_operative o (set_constants x (cleared s)) /\
+    (r = Ok tt -> o = [] /\ (b = true -> x = req_constants)) /\ (r = Ok tt \/ exists e, r = Raise e).
+Proof.
+  intros s b s' r H. rewrite clear_config_unfold in H. inversion H; subst.
+  eexists. exists []. split; [reflexivity|]. split; [|auto]. intros _. split; [reflexivity|].
+  intros ->. reflexivity.
 Qed.
 
 (* ---- register ---- *)
@@ -489,3 +506,525 @@ Proof.
   destruct (exec fuel s o) as [s1 r1] eqn:E. apply exec_scopes_restored in E.
   rewrite IH. destruct r1; simpl; assumption.
 Qed.
+
+(* ---- OWith ---- *)
+Theorem with_body_scope : forall f s a body new_scope,
+  enter_scope_value (current_scope s) a = (new_scope, true) -> scope_valid new_scope = true ->
+  exists s1, current_scope s1 = new_scope /\ scopes s1 = new_scope :: scopes s /\
+    exec (S f) s (OWith a body) =
+      (let '(s2, r) := (fix go (s : state) (body : list op) : state * res unit :=
+                           match body with [] => (s, Ok tt) | x :: t => let '(s1, r) := exec f s x in
+                              match r with Raise e => (s1, Raise e) | Ok _ => go s1 t end end) s1 body in
+       (set_scopes (tl (scopes s2)) s2, r)).
+Proof.
+  intros f s a body new_scope He Hv.
+  exists (emit (OL (map OS new_scope)) (set_scopes (new_scope :: scopes s) s)).
+  split; [reflexivity|]. split; [reflexivity|].
+  rewrite exec_OWith, He. cbv zeta. rewrite Hv. simpl negb. simpl orb. cbv iota. reflexivity.
+Qed.
+
+(* the same, phrased with [exec_body] and the explicit entry state *)
+Theorem with_body_scope_exec_body : forall f s a body new_scope,
+  enter_scope_value (current_scope s) a = (new_scope, true) -> scope_valid new_scope = true ->
+  exec (S f) s (OWith a body) =
+    (let '(s2, r) := exec_body f (emit (OL (map OS new_scope)) (set_scopes (new_scope :: scopes s) s)) body in
+     (set_scopes (tl (scopes s2)) s2, r)).
+Proof.
+  intros f s a body new_scope He Hv.
+  rewrite exec_OWith, He. cbv zeta. rewrite Hv. reflexivity.
+Qed.
+
+Theorem with_invalid_raises : forall f s a body new_scope valid,
+  enter_scope_value (current_scope s) a = (new_scope, valid) -> (valid = false \/ scope_valid new_scope = false) ->
+  exists s', exec (S f) s (OWith a body) = (s', Raise "ValueError") /\ scopes s' = scopes s /\ config s' = config s /\ obs s' = obs s.
+Proof.
+  intros f s a body new_scope valid He Hv.
+  exists (set_scopes (scopes s) (set_scopes (new_scope :: scopes s) s)).
+  split; [|repeat split].
+  rewrite exec_OWith, He. cbv zeta.
+  assert (E : negb valid || negb (scope_valid new_scope) = true).
+  { destruct Hv as [-> | ->]; [reflexivity|apply orb_true_r]. }
+  rewrite E. reflexivity.
+Qed.
+
+Theorem enter_scope_compose : forall cur,
+  (forall l, enter_scope_value cur (SList l) = (l, true)) /\
+  (forall str, str <> "" -> enter_scope_value cur (SStr str) = (cur ++ split_slash str, true)) /\
+  enter_scope_value cur (SStr "") = ([], true) /\ enter_scope_value cur SNone = ([], true).
+Proof.
+  intro cur. split; [reflexivity|]. split; [|split; reflexivity].
+  intros str Hne. unfold enter_scope_value.
+  destruct (String.eqb_spec str ""); [contradiction|reflexivity].
+Qed.
+
+(* ================================================================== *)
+(* C11: only validated keys reach the store                            *)
+(* ================================================================== *)
+Theorem bind_split_reject_frame : forall s sc sel a v s' e, bind_split s sc sel a v = (s', Raise e) -> s' = s.
+Proof.
+  intros s sc sel a v s' e H. apply bind_split_shape in H.
+  destruct H as [[-> _]|[c [_ H]]]; [reflexivity|discriminate].
+Qed.
+
+Definition accept_cond (sel a : string) (c : cfgable) : Prop :=
+  (c_method c = true -> contains_char dot sel = true) /\
+  might_have_parameter (c_sig c) a = true /\
+  (c_allow c = [] \/ str_in a (c_allow c) = true) /\ str_in a (c_deny c) = false.
+
+Lemma allow_test : forall a l,
+  negb (match l with [] => true | _ => false end) && negb (str_in a l) = false <-> (l = [] \/ str_in a l = true).
+Proof.
+  intros a l. destruct l as [|x l].
+  - simpl. split; auto.
+  - simpl negb at 1. rewrite andb_true_l. split.
+    + intros H. right. apply negb_false_iff. exact H.
+    + intros [H|H]; [discriminate|]. rewrite H. reflexivity.
+Qed.
+
+Lemma pbk_validate_ok_iff : forall s sc sel a p,
+  pbk_validate s sc sel a = Ok p <->
+  exists c, reg_lookup s sel = LFound c /\ accept_cond sel a c /\ p = ((sc, c_sel c), a).
+Proof.
+  intros s sc sel a p. unfold pbk_validate, accept_cond.
+  destruct (reg_lookup s sel) as [| |c].
+  - split; [discriminate|intros [c [H _]]; discriminate].
+  - split; [discriminate|intros [c [H _]]; discriminate].
+  - destruct (c_method c && negb (contains_char dot sel)) eqn:E1.
+    { split; [discriminate|]. intros [c' [Hc [[H1 _] _]]]. inversion Hc; subst c'.
+      apply andb_true_iff in E1. destruct E1 as [E1 E2]. rewrite (H1 E1) in E2. discriminate. }
+    destruct (negb (might_have_parameter (c_sig c) a)) eqn:E2.
+    { split; [discriminate|]. intros [c' [Hc [[_ [H2 _]] _]]]. inversion Hc; subst c'.
+      rewrite H2 in E2. discriminate. }
+    destruct (negb (match c_allow c with [] => true | _ => false end) && negb (str_in a (c_allow c))) eqn:E3.
+    { split; [discriminate|]. intros [c' [Hc [[_ [_ [H3 _]]] _]]]. inversion Hc; subst c'.
+      apply allow_test in H3. rewrite H3 in E3. discriminate. }
+    destruct (str_in a (c_deny c)) eqn:E4.
+    { split; [discriminate|]. intros [c' [Hc [[_ [_ [_ H4]]] _]]]. inversion Hc; subst c'. congruence. }
+    split.
+    + intros H. inversion H; subst. exists c. split; [reflexivity|]. split; [|reflexivity].
+      split; [|split; [|split]].
+      * intros Hm. rewrite Hm in E1. simpl in E1. apply negb_false_iff in E1. exact E1.
+      * apply negb_false_iff in E2. exact E2.
+      * apply allow_test. exact E3.
+      * exact E4.
+    + intros [c' [Hc [_ ->]]]. inversion Hc; subst c'. reflexivity.
+Qed.
+
+Theorem bind_split_accept_iff : forall s sc sel a v,
+  (exists s', bind_split s sc sel a v = (s', Ok tt)) <->
+  (locked s = false /\ exists c, reg_lookup s sel = LFound c /\
+     (c_method c = true -> contains_char dot sel = true) /\
+     might_have_parameter (c_sig c) a = true /\
+     (c_allow c = [] \/ str_in a (c_allow c) = true) /\ str_in a (c_deny c) = false).
+Proof.
+  intros s sc sel a v. unfold bind_split. split.
+  - intros [s' H]. destruct (locked s); [discriminate|]. split; [reflexivity|].
+    destruct (pbk_validate s sc sel a) as [p|e] eqn:E; [|discriminate].
+    apply pbk_validate_ok_iff in E. destruct E as [c [Hc [Ha _]]]. exists c. split; assumption.
+  - intros [Hl [c [Hc Ha]]]. rewrite Hl.
+    assert (E : pbk_validate s sc sel a = Ok ((sc, c_sel c), a)).
+    { apply pbk_validate_ok_iff. exists c. repeat split; try assumption; apply Ha. }
+    rewrite E. eexists; reflexivity.
+Qed.
+
+Theorem bind_split_effect : forall s sc sel a v s', bind_split s sc sel a v = (s', Ok tt) ->
+  exists c, reg_lookup s sel = LFound c /\
+    config s' = cset (sc, c_sel c) (sset a v (match cget (sc, c_sel c) (config s) with Some d => d | None => [] end)) (config s) /\
+    reg s' = reg s /\ locked s' = locked s /\ operative s' = operative s /\ scopes s' = scopes s.
+Proof.
+  intros s sc sel a v s' H. unfold bind_split in H.
+  destruct (locked s) eqn:L; [discriminate|].
+  destruct (pbk_validate s sc sel a) as [p|e] eqn:E; [|discriminate].
+  apply pbk_validate_ok_iff in E. destruct E as [c [Hc [Ha ->]]].
+  inversion H; subst. exists c. split; [exact Hc|]. repeat split; simpl; auto.
+Qed.
+
+Theorem exec_bind_reject_frame : forall f s o s' e,
+  (exists k v, o = OBind k v) \/ (exists a b c v, o = OBindT a b c v) \/ (exists k v, o = OParse k v) ->
+  exec f s o = (s', Raise e) -> s' = s.
+Proof.
+  intros f s o s' e Ho H. destruct f as [|f].
+  - rewrite exec_0 in H. inversion H; reflexivity.
+  - destruct Ho as [[k [v ->]]|[[a [b [c [v ->]]]]|[k [v ->]]]].
+    + rewrite exec_OBind in H. destruct (resolve s v); [|inversion H; reflexivity].
+      destruct (parse_binding_key k) as [[scope sel] arg].
+      apply run_res_raise in H. eapply bind_split_reject_frame; exact H.
+    + rewrite exec_OBindT in H. destruct (resolve s v); [|inversion H; reflexivity].
+      apply run_res_raise in H. eapply bind_split_reject_frame; exact H.
+    + rewrite exec_OParse in H. destruct (resolve s v); [|inversion H; reflexivity].
+      destruct (parse_binding_key k) as [[scope sel] arg].
+      destruct (String.eqb arg ""); apply run_res_raise in H; eapply bind_split_reject_frame; exact H.
+Qed.
+
+(* ================================================================== *)
+(* C12: lock automaton                                                 *)
+(* ================================================================== *)
+Lemma bind_split_locked : forall s sc sel a v, locked s = true -> bind_split s sc sel a v = (s, Raise "RuntimeError").
+Proof. intros s sc sel a v L. unfold bind_split. rewrite L. reflexivity. Qed.
+
+Theorem locked_bind_frame : forall f s o, locked s = true ->
+  (exists k v, o = OBind k v) \/ (exists a b c v, o = OBindT a b c v) \/ (exists k v, o = OParse k v) \/ (exists c, o = ORegister c) \/ o = OFinalize ->
+  exists e, exec (S f) s o = (s, Raise e).
+Proof.
+  intros f s o L Ho.
+  destruct Ho as [[k [v ->]]|[[a [b [c [v ->]]]]|[[k [v ->]]|[[c ->]| ->]]]].
+  - rewrite exec_OBind. destruct (resolve s v); [|eexists; reflexivity].
+    destruct (parse_binding_key k) as [[scope sel] arg]. rewrite bind_split_locked by exact L.
+    eexists; reflexivity.
+  - rewrite exec_OBindT. destruct (resolve s v); [|eexists; reflexivity].
+    rewrite bind_split_locked by exact L. eexists; reflexivity.
+  - rewrite exec_OParse. destruct (resolve s v); [|eexists; reflexivity].
+    destruct (parse_binding_key k) as [[scope sel] arg].
+    destruct (String.eqb arg ""); rewrite bind_split_locked by exact L; eexists; reflexivity.
+  - rewrite exec_ORegister. unfold register. rewrite L. eexists; reflexivity.
+  - rewrite exec_OFinalize. unfold finalize. rewrite L. eexists; reflexivity.
+Qed.
+
+Theorem unlock_restores_lock_strong : forall fuel s body s' r, exec fuel s (OUnlock body) = (s', r) -> locked s' = locked s.
+Proof.
+  intros fuel s body s' r H. destruct fuel as [|f].
+  - rewrite exec_0 in H. inversion H; reflexivity.
+  - rewrite exec_OUnlock in H. destruct (exec_body f (set_locked false s) body) as [s1 r1].
+    inversion H; subst. reflexivity.
+Qed.
+
+Theorem unlock_restores_lock : forall fuel s body s' r, exec fuel s (OUnlock body) = (s', r) -> locked s' = locked s \/ (fuel = 0).
+Proof. intros. left. eapply unlock_restores_lock_strong; eassumption. Qed.
+
+Theorem finalize_ok_locks : forall s s', finalize s = (s', Ok tt) -> locked s' = true /\ locked s = false.
+Proof.
+  intros s s' H. apply finalize_shape in H.
+  destruct H as [[_ [e He]]|[L [[o [c ->]] _]]]; [discriminate|]. split; [reflexivity|exact L].
+Qed.
+
+Theorem finalize_reject_atomic : forall s s' e, finalize s = (s', Raise e) ->
+  config s' = config s /\ locked s' = locked s /\ reg s' = reg s /\ scopes s' = scopes s /\ hooks s' = hooks s.
+Proof.
+  intros s s' e H. apply finalize_shape in H.
+  destruct H as [[[o ->] _]|[_ [_ H]]]; [|discriminate]. repeat split.
+Qed.
+
+Theorem finalize_twice : forall s, locked s = true -> finalize s = (s, Raise "RuntimeError").
+Proof. intros s L. unfold finalize. rewrite L. reflexivity. Qed.
+
+(* ---- hooks ---- *)
+Definition hk_go (s : state) :=
+  fix go (kvs : list (string * value)) (acc : list (pbk * value)) : res (list (pbk * value)) :=
+    match kvs with
+    | [] => Ok acc
+    | (k, v) :: t =>
+        let '(scope, sel, arg) := parse_binding_key k in
+        match pbk_validate s scope sel arg with
+        | Raise e => Raise e
+        | Ok p => if amem pbk_eqb p acc then Raise "ValueError" else go t (acc ++ [(p, v)])
+        end
+    end.
+Definition key_pbk (s : state) (k : string) : res pbk :=
+  let '(a, b, c) := parse_binding_key k in pbk_validate s a b c.
+
+Lemma hk_go_cons : forall s k v t acc, hk_go s ((k, v) :: t) acc =
+  match key_pbk s k with
+  | Raise e => Raise e
+  | Ok p => if amem pbk_eqb p acc then Raise "ValueError" else hk_go s t (acc ++ [(p, v)])
+  end.
+Proof. intros. unfold key_pbk. simpl. destruct (parse_binding_key k) as [[a b] c]. reflexivity. Qed.
+
+Lemma collect_hooks_cons : forall s kvs r acc, collect_hooks s (HReturn kvs :: r) acc =
+  match hk_go s kvs acc with Raise e => Raise e | Ok acc' => collect_hooks s r acc' end.
+Proof. reflexivity. Qed.
+
+Lemma pbk_eqb_refl : forall p, pbk_eqb p p = true.
+Proof.
+  intros [[a b] c]. unfold pbk_eqb, ckey_eqb. simpl. rewrite !String.eqb_refl. reflexivity.
+Qed.
+
+Lemma amem_app_l : forall (p : pbk) (l1 l2 : list (pbk * value)),
+  amem pbk_eqb p l1 = true -> amem pbk_eqb p (l1 ++ l2) = true.
+Proof.
+  intros p l1 l2. unfold amem. induction l1 as [|[j w] l1 IH]; simpl; [discriminate|].
+  destruct (pbk_eqb p j); auto.
+Qed.
+Lemma amem_app_last : forall (p : pbk) v (l1 : list (pbk * value)), amem pbk_eqb p (l1 ++ [(p, v)]) = true.
+Proof.
+  intros p v l1. unfold amem. induction l1 as [|[j w] l1 IH]; simpl.
+  - rewrite pbk_eqb_refl. reflexivity.
+  - destruct (pbk_eqb p j); auto.
+Qed.
+
+Lemma hk_go_spec : forall s kvs acc acc', hk_go s kvs acc = Ok acc' ->
+  (forall p, amem pbk_eqb p acc = true -> amem pbk_eqb p acc' = true) /\
+  (forall k v p, In (k, v) kvs -> key_pbk s k = Ok p -> amem pbk_eqb p acc = false /\ amem pbk_eqb p acc' = true).
+Proof.
+  intros s kvs. induction kvs as [|[k v] t IH]; intros acc acc' H.
+  - simpl in H. inversion H; subst. split; [auto|]. intros k v p [].
+  - rewrite hk_go_cons in H. destruct (key_pbk s k) as [p0|e] eqn:Ek; [|discriminate].
+    destruct (amem pbk_eqb p0 acc) eqn:Em; [discriminate|].
+    destruct (IH _ _ H) as [M1 M2]. split.
+    + intros p Hp. apply M1. apply amem_app_l. exact Hp.
+    + intros k' v' p [Hin|Hin] Hk.
+      * inversion Hin; subst k' v'. rewrite Ek in Hk. inversion Hk; subst p0.
+        split; [exact Em|]. apply M1. apply amem_app_last.
+      * destruct (M2 _ _ _ Hin Hk) as [N1 N2]. split; [|exact N2].
+        destruct (amem pbk_eqb p acc) eqn:Ea; [|reflexivity].
+        rewrite (amem_app_l p acc [(p0, v)] Ea) in N1. discriminate.
+Qed.
+
+Lemma collect_hooks_spec : forall s hs acc acc', collect_hooks s hs acc = Ok acc' ->
+  (forall p, amem pbk_eqb p acc = true -> amem pbk_eqb p acc' = true) /\
+  (forall kvs k v p, In (HReturn kvs) hs -> In (k, v) kvs -> key_pbk s k = Ok p ->
+     amem pbk_eqb p acc = false /\ amem pbk_eqb p acc' = true).
+Proof.
+  intros s hs. induction hs as [|h r IH]; intros acc acc' H.
+  - simpl in H. inversion H; subst. split; [auto|]. intros kvs k v p [].
+  - destruct h as [kvs0|e]; [|simpl in H; discriminate].
+    rewrite collect_hooks_cons in H. destruct (hk_go s kvs0 acc) as [acc1|e] eqn:Eg; [|discriminate].
+    destruct (hk_go_spec _ _ _ _ Eg) as [G1 G2]. destruct (IH _ _ H) as [M1 M2]. split.
+    + intros p Hp. apply M1, G1, Hp.
+    + intros kvs k v p [Hin|Hin] Hkv Hk.
+      * inversion Hin; subst kvs0. destruct (G2 _ _ _ Hkv Hk) as [N1 N2]. split; [exact N1|apply M1, N2].
+      * destruct (M2 _ _ _ _ Hin Hkv Hk) as [N1 N2]. split; [|exact N2].
+        destruct (amem pbk_eqb p acc) eqn:Ea; [|reflexivity]. rewrite (G1 _ Ea) in N1. discriminate.
+Qed.
+
+Lemma collect_hooks_app : forall s h1 h2 acc, collect_hooks s (h1 ++ h2) acc =
+  match collect_hooks s h1 acc with Raise e => Raise e | Ok a => collect_hooks s h2 a end.
+Proof.
+  intros s h1. induction h1 as [|h r IH]; intros h2 acc; [reflexivity|].
+  destruct h as [kvs|e]; [|reflexivity].
+  rewrite <- app_comm_cons, !collect_hooks_cons. destruct (hk_go s kvs acc); [apply IH|reflexivity].
+Qed.
+
+Theorem hook_conflict_rejected : forall s hs1 kvs1 hs2 kvs2 hs3 k1 v1 k2 v2 p,
+  In (k1, v1) kvs1 -> In (k2, v2) kvs2 ->
+  (let '(a,b,c) := parse_binding_key k1 in pbk_validate s a b c) = Ok p ->
+  (let '(a,b,c) := parse_binding_key k2 in pbk_validate s a b c) = Ok p ->
+  exists e, collect_hooks s (hs1 ++ HReturn kvs1 :: hs2 ++ HReturn kvs2 :: hs3) [] = Raise e.
+Proof.
+  intros s hs1 kvs1 hs2 kvs2 hs3 k1 v1 k2 v2 p I1 I2 K1 K2.
+  fold (key_pbk s k1) in K1. fold (key_pbk s k2) in K2.
+  destruct (collect_hooks s (hs1 ++ HReturn kvs1 :: hs2 ++ HReturn kvs2 :: hs3) []) as [acc|e] eqn:E;
+    [exfalso|eexists; reflexivity].
+  rewrite collect_hooks_app in E. destruct (collect_hooks s hs1 []) as [a1|] eqn:E1; [|discriminate].
+  change (HReturn kvs1 :: hs2 ++ HReturn kvs2 :: hs3) with ((HReturn kvs1 :: hs2) ++ HReturn kvs2 :: hs3) in E.
+  rewrite collect_hooks_app in E.
+  destruct (collect_hooks s (HReturn kvs1 :: hs2) a1) as [a2|] eqn:E2; [|discriminate].
+  destruct (collect_hooks_spec _ _ _ _ E2) as [_ M2].
+  destruct (M2 kvs1 k1 v1 p (or_introl eq_refl) I1 K1) as [_ N2].
+  destruct (collect_hooks_spec _ _ _ _ E) as [_ M3].
+  destruct (M3 kvs2 k2 v2 p (or_introl eq_refl) I2 K2) as [N3 _]. congruence.
+Qed.
+
+Theorem finalize_builtin_hooks : forall s, locked s = false ->
+  (macros_hook_ok s = false \/ unknown_refs_hook_ok s = false) -> exists s', finalize s = (s', Raise "ValueError").
+Proof.
+  intros s L H. rewrite finalize_unfold, L.
+  destruct (macros_hook_ok s) eqn:M; simpl; [|eexists; reflexivity].
+  destruct H as [H|H]; [discriminate|]. rewrite H. simpl. eexists; reflexivity.
+Qed.
+
+Theorem clear_unlocks : forall s b s' r, clear_config s b = (s', r) ->
+  locked s' = false /\ config s' = [] /\ singletons s' = [] /\ reg s' = reg s /\ hooks s' = hooks s.
+Proof.
+  intros s b s' r H. apply clear_config_shape in H. destruct H as [x [o [-> _]]]. repeat split.
+Qed.
+
+(* ================================================================== *)
+(* C20: clear_config                                                   *)
+(* ================================================================== *)
+Theorem clear_ok_pristine : forall s b s', clear_config s b = (s', Ok tt) ->
+  config s' = [] /\ operative s' = [] /\ singletons s' = [] /\ locked s' = false /\ reg s' = reg s /\
+  scopes s' = scopes s /\ (b = true -> constants s' = req_constants).
+Proof.
+  intros s b s' H. apply clear_config_shape in H. destruct H as [x [o [-> [H _]]]].
+  destruct (H eq_refl) as [-> Hb]. repeat split. exact Hb.
+Qed.
+
+Lemma fset_append : forall {V} (k : key) (v : V) m, fget k m = None -> fset k v m = m ++ [(k, v)].
+Proof.
+  intros V k v m. induction m as [|[j w] m IH]; simpl; intros H; [reflexivity|].
+  destruct (key_eqb k j); [discriminate|]. rewrite IH by exact H. reflexivity.
+Qed.
+
+Lemma matching_nil_absent : forall {V} (k : key) (m : smap V), sm_matching k m = [] -> fget k (sm_flat m) = None.
+Proof.
+  intros V k m H. unfold sm_matching, fmem in H. destruct (fget k (sm_flat m)); [discriminate|reflexivity].
+Qed.
+
+Theorem clear_total : forall s b, exists s', clear_config s b = (s', Ok tt).
+Proof. intros s b. rewrite clear_config_unfold. eexists. reflexivity. Qed.
+
+Theorem clear_constants_true_total : forall s, exists s', clear_config s true = (s', Ok tt).
+Proof. intro s. apply clear_total. Qed.
+
+(* ---- the ORIGINAL clear_config (saved constants re-defined through constant()) can fail: F8 ---- *)
+Theorem clear_can_fail_refuted : exists s, (exists s0 ops, s = run_top 50 init_state ops /\ s0 = s) /\
+  exists s' e, clear_config_orig s false = (s', Raise e).
+Proof.
+  exists (run_top 50 init_state [OInteractive [OConstant "a.b.X" (VInt 1); OConstant "b.X" (VInt 2)]]).
+  split.
+  - eexists. exists [OInteractive [OConstant "a.b.X" (VInt 1); OConstant "b.X" (VInt 2)]]. split; reflexivity.
+  - eexists. exists "ValueError". vm_compute. reflexivity.
+Qed.
+
+(* on the same state the repaired clear_config succeeds and keeps all three constants *)
+Theorem clear_repaired_on_witness :
+  let s := run_top 50 init_state [OInteractive [OConstant "a.b.X" (VInt 1); OConstant "b.X" (VInt 2)]] in
+  exists s', clear_config s false = (s', Ok tt) /\ sm_flat (constants s') = sm_flat (constants s).
+Proof. eexists. split; vm_compute; reflexivity. Qed.
+
+(* ---- the repaired clear_config(False) keeps the constants' flat map ---- *)
+Lemma rebuild_from_flat : forall (l : flat value) (m0 : smap value), NoDup (map fst l) ->
+  (forall k, In k (map fst l) -> fget k (sm_flat m0) = None) ->
+  sm_flat (fold_left (fun m kv => sm_set (fst kv) (snd kv) m) l m0) = sm_flat m0 ++ l.
+Proof.
+  induction l as [|[k v] t IH]; intros m0 Hnd Hfresh; simpl.
+  - rewrite app_nil_r. reflexivity.
+  - simpl in Hnd. inversion Hnd as [|? ? Hnotin Hnd']; subst.
+    rewrite IH.
+    + simpl. rewrite (fset_append k v (sm_flat m0)) by (apply Hfresh; left; reflexivity).
+      rewrite <- app_assoc. reflexivity.
+    + exact Hnd'.
+    + intros k' Hk'. simpl. rewrite fget_fset.
+      destruct (key_eqb_spec k' k) as [->|N]; [contradiction|]. apply Hfresh. right. exact Hk'.
+Qed.
+
+Lemma rebuild_flat : forall l : flat value, NoDup (map fst l) -> sm_flat (rebuild l) = l.
+Proof.
+  intros l Hnd. unfold rebuild. rewrite rebuild_from_flat; [reflexivity|exact Hnd|intros; reflexivity].
+Qed.
+
+(* hypothesis: the keys of the constants' flat map are pairwise distinct (Leibniz equality on
+   component lists, which key_eqb decides) *)
+Theorem clear_keeps_constants : forall s s', NoDup (map fst (sm_flat (constants s))) ->
+  clear_config s false = (s', Ok tt) -> sm_flat (constants s') = sm_flat (constants s).
+Proof.
+  intros s s' Hnd H. rewrite clear_config_unfold in H. inversion H; subst. simpl.
+  apply rebuild_flat. exact Hnd.
+Qed.
+
+(* the hypothesis is an invariant: flat maps built by fset have distinct keys *)
+Definition kinv (s : state) : Prop := NoDup (map fst (sm_flat (constants s))).
+
+Lemma kinv_init : kinv init_state.
+Proof. unfold kinv. simpl. constructor; [intros []|constructor]. Qed.
+Lemma define_constant_kinv : forall s n v s' r, kinv s -> define_constant s n v = (s', r) -> kinv s'.
+Proof.
+  intros s n v s' r K H. apply define_constant_shape in H.
+  destruct H as [[-> _]|[-> _]]; [exact K|]. unfold kinv. simpl. apply fset_nodup. exact K.
+Qed.
+Lemma clear_config_kinv : forall s b s' r, kinv s -> clear_config s b = (s', r) -> kinv s'.
+Proof.
+  intros s b s' r K H. rewrite clear_config_unfold in H. inversion H; subst. unfold kinv. simpl.
+  destruct b; [simpl; constructor; [intros []|constructor]|].
+  rewrite rebuild_flat; exact K.
+Qed.
+
+(* ---- positive part for the ORIGINAL clear_config: constants defined outside interactive mode survive ---- *)
+Lemma split_aux_nonempty : forall sep s cur, split_aux sep s cur <> [].
+Proof.
+  intros sep s. induction s as [|c r IH]; intros cur; simpl; [discriminate|].
+  destruct (Ascii.eqb c sep); [discriminate|apply IH].
+Qed.
+
+Lemma str_app_assoc : forall a b c : string, ((a ++ b) ++ c = a ++ (b ++ c))%string.
+Proof. induction a as [|x a IH]; intros b c; simpl; [reflexivity|rewrite IH; reflexivity]. Qed.
+Lemma str_app_nil_r : forall a : string, (a ++ "" = a)%string.
+Proof. induction a as [|x a IH]; simpl; [reflexivity|rewrite IH; reflexivity]. Qed.
+
+Lemma join_split_aux : forall s cur, join "." (split_aux dot s cur) = (cur ++ s)%string.
+Proof.
+  induction s as [|c r IH]; intros cur; simpl.
+  - rewrite str_app_nil_r. reflexivity.
+  - destruct (Ascii.eqb_spec c dot) as [->|Hne].
+    + pose proof (IH EmptyString) as H. pose proof (split_aux_nonempty dot r EmptyString) as Hn.
+      destruct (split_aux dot r "") as [|y l]; [contradiction|].
+      change (join "." (cur :: y :: l)) with (cur ++ "." ++ join "." (y :: l))%string.
+      rewrite H. reflexivity.
+    + rewrite IH. rewrite str_app_assoc. reflexivity.
+Qed.
+
+Lemma of_key_to_key : forall name, of_key (to_key name) = name.
+Proof. intro name. unfold of_key, to_key, join_dot, split_dot, split. apply join_split_aux. Qed.
+
+(* constant maps reachable from the pristine one by successful non-interactive gin.constant() calls *)
+Inductive built_ni : smap value -> Prop :=
+| built_init : built_ni req_constants
+| built_def : forall m name v, built_ni m -> is_selector name = true ->
+    sm_matching (to_key name) m = [] -> built_ni (sm_set (to_key name) v m).
+
+Lemma define_constant_built : forall s name v s', interactive s = false -> built_ni (constants s) ->
+  define_constant s name v = (s', Ok tt) -> built_ni (constants s').
+Proof.
+  intros s name v s' Hi Hb H. unfold define_constant in H. rewrite Hi in H.
+  destruct (is_selector name) eqn:Es; simpl in H; [|discriminate].
+  destruct (sm_matching (to_key name) (constants s)) eqn:Em; simpl in H; [|discriminate].
+  inversion H; subst. simpl. apply built_def; assumption.
+Qed.
+
+Lemma define_constant_fresh : forall st name v, is_selector name = true ->
+  sm_matching (to_key name) (constants st) = [] ->
+  define_constant st name v = (set_constants (sm_set (to_key name) v (constants st)) st, Ok tt).
+Proof.
+  intros st name v Hs Hm. unfold define_constant. rewrite Hs, Hm. simpl. rewrite andb_false_r. reflexivity.
+Qed.
+
+Lemma clr_fold_built : forall m, built_ni m -> forall st, constants st = sm_empty ->
+  fold_left clr_step (sm_flat m) (st, Ok tt) = (set_constants m st, Ok tt).
+Proof.
+  intros m Hb. induction Hb as [|m name v Hb IH Hs Hm]; intros st Hc.
+  - simpl. unfold clr_step. simpl fst. simpl snd.
+    change (of_key ["gin"; "REQUIRED"]) with "gin.REQUIRED".
+    rewrite define_constant_fresh; [rewrite Hc; reflexivity|reflexivity|rewrite Hc; reflexivity].
+  - simpl sm_flat. rewrite (fset_append _ _ _ (matching_nil_absent _ _ Hm)).
+    rewrite fold_left_app, (IH st Hc). simpl. unfold clr_step. simpl fst. simpl snd.
+    rewrite of_key_to_key. rewrite define_constant_fresh; [reflexivity|exact Hs|exact Hm].
+Qed.
+
+(* for such maps the repaired clear_config rebuilds the very same map (tree included) *)
+Lemma rebuild_built : forall m, built_ni m -> rebuild (sm_flat m) = m.
+Proof.
+  intros m Hb. unfold rebuild. induction Hb as [|m name v Hb IH Hs Hm]; [reflexivity|].
+  simpl sm_flat. rewrite (fset_append _ _ _ (matching_nil_absent _ _ Hm)).
+  rewrite fold_left_app, IH. reflexivity.
+Qed.
+
+Theorem clear_keeps_constants_partial : forall s, built_ni (constants s) ->
+  exists s', clear_config_orig s false = (s', Ok tt) /\ constants s' = constants s /\
+    sm_flat (constants s') = sm_flat (constants s) /\
+    config s' = [] /\ operative s' = [] /\ singletons s' = [] /\ locked s' = false.
+Proof.
+  intros s Hb. exists (set_operative [] (set_constants (constants s) (cleared s))).
+  split; [|repeat split].
+  rewrite clear_config_orig_unfold.
+  rewrite (clr_fold_built _ Hb (set_constants sm_empty (cleared s)) eq_refl). reflexivity.
+Qed.
+
+(* on such states the original and the repaired clear_config agree *)
+Theorem clear_orig_agrees_on_built : forall s b, built_ni (constants s) -> clear_config_orig s b = clear_config s b.
+Proof.
+  intros s b Hb. destruct b; [reflexivity|].
+  destruct (clear_keeps_constants_partial s Hb) as [s' [E _]].
+  rewrite clear_config_orig_unfold in *. rewrite clear_config_unfold.
+  rewrite (clr_fold_built _ Hb (set_constants sm_empty (cleared s)) eq_refl).
+  rewrite (rebuild_built _ Hb). reflexivity.
+Qed.
+
+Lemma clear_config_built : forall s b s' r, built_ni (constants s) -> clear_config s b = (s', r) ->
+  built_ni (constants s').
+Proof.
+  intros s b s' r Hb H. rewrite clear_config_unfold in H. inversion H; subst. simpl.
+  destruct b; [apply built_init|]. rewrite (rebuild_built _ Hb). exact Hb.
+Qed.
+
+Print Assumptions call_frame.
+Print Assumptions exec_scopes_restored.
+Print Assumptions exec_bind_reject_frame.
+Print Assumptions unlock_restores_lock.
+Print Assumptions finalize_reject_atomic.
+Print Assumptions clear_ok_pristine.
+Print Assumptions hook_conflict_rejected.
+Print Assumptions clear_keeps_constants_partial.
+Print Assumptions clear_total.
+Print Assumptions clear_keeps_constants.
+Print Assumptions clear_can_fail_refuted.
+Print Assumptions clear_unlocks.
